@@ -261,7 +261,44 @@ static void run_trial(int idx)
 					ntf_t *n0 = N[k];
 					if (n0 != n && n0->reg_call < n->reg_ret && n0->start > Lcall) haveN0 = 1;
 				}
-				if (haveL && haveN0) {
+				/* could the in-flight waker have seen the count at zero? minimum of lower(t) from the moment its leave
+				 * began (its own decrement included) up to the re-entry by tk */
+				int zero_possible = 0;
+				if (haveL) {
+					int lo = 0, hi = nev;
+					while (lo < hi) { int m = (lo + hi) / 2; if (ev[m].stamp < Lcall) lo = m + 1; else hi = m; }
+					int first = lo;
+					lo = 0; hi = nev;
+					while (lo < hi) { int m = (lo + hi) / 2; if (ev[m].stamp < tk->enter_ret) lo = m + 1; else hi = m; }
+					int last = lo - 1;
+					long mn = first > 0 ? prefix[first - 1] : 0;
+					if (last >= first) {
+						int len = last - first + 1, j = 0;
+						while ((1 << (j + 1)) <= len) j++;
+						long a = sp[j][first], b = sp[j][last - (1 << j) + 1];
+						long m2 = a < b ? a : b;
+						if (m2 < mn) mn = m2;
+					}
+					zero_possible = mn <= 0;
+				}
+				/* ... and was a dispatch_group_wait of the old generation still in flight (HAS_WAITERS set: the waker needs
+				 * its compare-and-swap loop, whose re-read picks up the flags of the new generation)? */
+				int haveW0 = 0;
+				if (haveL) for (int k = 0; k < nwait && !haveW0; k++) {
+					gw_t *w0 = W[k];
+					if (w0->kind != 2 && w0->call < tk->enter_ret && w0->ret > Lcall) haveW0 = 1;
+				}
+				if (haveL && !haveN0 && zero_possible && haveW0) {
+					/* sibling of the stale wake below, without an older notification: the waker (a leave that made the count
+					 * zero, or a notify call that found it zero) is still on its way to _dispatch_group_wake when the group is
+					 * re-entered and a notification is registered; its flag-clearing loop re-reads dg_state, finds
+					 * HAS_NOTIFS (set by that registration), clears it and fires the whole list */
+					stale++;
+					vf_violation("C07:notify-before-leave:stale-wake:reentry-during-wake+older-waiter-pending",
+							"notify registered at [%llu,%llu] started at %llu although a token entered at [%llu,%llu] (before the notify call) only began to leave at %llu; a %s that began at %llu (the count could be zero then) was still executing across that enter and the registration, and a dispatch_group_wait of the old generation was pending (the waker's compare-and-swap loop re-reads the state of the new generation)",
+							(unsigned long long)n->reg_call, (unsigned long long)n->reg_ret, (unsigned long long)n->start,
+							(unsigned long long)tk->enter_call, (unsigned long long)tk->enter_ret, (unsigned long long)tk->leave_call, waker, (unsigned long long)Lcall);
+				} else if (haveL && haveN0) {
 					stale++;
 					vf_violation("C07:notify-before-leave:stale-wake:reentry-during-wake+older-notify-pending",
 							"notify registered at [%llu,%llu] started at %llu although a token entered at [%llu,%llu] (before the notify call) only began to leave at %llu; a %s that began at %llu (and saw the count at zero) was still executing across that enter and the registration, and an older notification was pending (same wake batch)",
